@@ -42,7 +42,7 @@ CHECKS = {
         text="Exhaustive vocabulary leg: every Element x AtomType x AtomGeom (44 982 on this tree) as a one-atom molecule and every BondType on a two-atom "
              "molecule is written, must be accepted by the reader with the element recovered, and the second write must reproduce the text. Random leg: generated "
              "Molecule / Structure / Substructure-view / ConformerEnsemble objects round-trip field by field at the written precision through loads / loads_all / load(stream) / "
-             "ConformerEnsemble.loads_mol2, plus the text fixed point.",
+             "ConformerEnsemble.loads_mol2, plus the text fixed point, a second write after an in-place edit, and texts beyond 1 MiB / 4 MiB.",
         design_ref="DESIGN.md section 5, C07",
         note="Labels whitespace-free; names one stripped line; |x|<1e5; isotopes / formal charges / stereo / attributes are not expressible in mol2 and not compared.",
         technique="round-trip + fixed-point property testing; exhaustive enumeration of the emitted token vocabulary",
@@ -50,7 +50,7 @@ CHECKS = {
     "C08": dict(
         category="exploration",
         text="Round-trip legs over generated geometries, 1-5 frame ensembles and multi-molecule xyz texts (consecutive frames of equal size and different elements) through every xyz loader entry point (count, order, elements, coordinates at "
-             "the written precision incl. the dump_xyz(fmt=...) option with 3-12 decimals and scientific formats, second write identical, second write after an in-place edit follows the edit); metamorphic unit leg: the same Angstrom geometry expressed in each DistanceUnit member with the "
+             "the written precision incl. texts beyond 1 MiB / 4 MiB, blank and non-ASCII names, Substructure views, the dump_xyz(fmt=...) option with 3-12 decimals and scientific formats, second write identical, second write after an in-place edit follows the edit); metamorphic unit leg: the same Angstrom geometry expressed in each DistanceUnit member with the "
              "physical factor held by the harness (CODATA), read with source_units through xyz and mol2 single / load_all / ensemble loaders, pairwise distances "
              "compared with the Angstrom original.",
         design_ref="DESIGN.md section 5, C08",
@@ -191,7 +191,7 @@ CHECKS = {
         category="fault_enumeration",
         text="For each generated (committed records, append session, recovery session) the write stream of the session is recorded and EVERY byte "
              "prefix of it is materialised as a crash image (exhaustive per session); each image is reopened read-only, reopened for append with "
-             "recovery puts (incl. re-using the torn key), and crashed a second time at every byte of the recovery stream. Oracle: committed records exact, "
+             "recovery puts (incl. re-using the torn key), crashed a second time at every byte of the recovery stream, and taken through the same recovery by ONE long-lived handle / Collection object (re-used across sessions, optionally already used before the crash image appeared). Oracle: committed records exact, "
              "session records all-or-nothing, nothing foreign listed. Fault enumeration over crash points is exactly the property's quantifier.",
         design_ref="DESIGN.md section 5, C03",
         note="Crash model = prefix of the bytes handed to the file object in call order (no reordering below the file API); torn file header excluded; "
